@@ -28,6 +28,7 @@ def showTerm : Term PVal → String
   | .index k t => s!"(idx {k.render} {showTerm t})"
   | .call m args t => s!"(call {m} ({" ".intercalate (args.map PVal.render)}) {showTerm t})"
   | .flatten id t => s!"(flat {id} {showTerm t})"
+  | .concat id t => s!"(concat {id} {showTerm t})"
 
 def showBool (b : Bool) : String := if b then "1" else "0"
 
